@@ -76,7 +76,9 @@ def parseOp (t : List String) : Option Op :=
     let tl ← natArg? r "tl"
     let tr ← bool? (← arg? r "transfer")
     let sender ← arg? r "sender"
-    let to ← arg? r "to"
+    -- `X^` is the upper-case bech32 spelling of `X`: the same address
+    let to0 ← arg? r "to"
+    let to := if to0.endsWith "^" then (to0.dropRight 1) else to0
     let lock ← arg? r "lock"
     if !(knownAddr sender && knownAddr to && lowerHex lock) then none else
     some (.create sender to coins (dash lock) ts tl tr)
